@@ -280,6 +280,12 @@ func report(eng *Engine, prop, tier string, fvs []*funcVC, results []*Result, un
 	}
 	nobl := len(results)
 	wall := time.Since(start).Seconds()
+	sort.Slice(results, func(i, j int) bool { return results[i].Ms > results[j].Ms })
+	for i := 0; i < 3 && i < len(results); i++ {
+		if results[i].Ms > 1500 {
+			fmt.Printf("SLOW %dms %s (%s)\n", results[i].Ms, results[i].Ob.Name, results[i].Solver)
+		}
+	}
 	fmt.Printf("govc: property=%s tier=%s functions=%d obligations=%d discharged=%d failed=%d known=%d load=%dms solver_total=%dms max=%dms wall=%.1fs\n",
 		prop, tier, len(fvs), nobl, discharged, failed, len(knownSeen), loadMs, totalMs, maxMs, wall)
 	if nobl == 0 {
